@@ -12,6 +12,7 @@
 #pragma once
 #include <verif.hpp>
 #include <kernel/runtime.hpp>
+#include <kernel/util/property_map.hpp>
 #include <kernel/lafem/dense_vector.hpp>
 #include <kernel/lafem/sparse_matrix_csr.hpp>
 #include <kernel/lafem/none_filter.hpp>
@@ -259,19 +260,62 @@ namespace c07
     return mat;
   }
 
-  /// the solvers that only need the sequential vector interface
+  /// the solvers that only need the sequential vector interface.
+  /// path 0: configured by constructor / factory arguments; path 1: constructed with OTHER parameter values and configured by the
+  /// setters afterwards; path 2: constructed from a PropertyMap section (pm holds the solver specific keys and the limits)
   template<typename MatT, typename FilT, typename VecT>
-  std::shared_ptr<Solver::IterativeSolver<VecT>> make_common(int s, const MatT& A, const FilT& f, std::shared_ptr<Solver::SolverBase<VecT>> pr, std::shared_ptr<Solver::SolverBase<VecT>> pr2)
+  std::shared_ptr<Solver::IterativeSolver<VecT>> make_common(int s, const MatT& A, const FilT& f, std::shared_ptr<Solver::SolverBase<VecT>> pr, std::shared_ptr<Solver::SolverBase<VecT>> pr2,
+    int path = 0, PropertyMap* pm = nullptr)
   {
+    typedef Solver::BiCGStabPreconVariant BV; typedef Solver::BiCGStabLPreconVariant LV;
+    const bool right = (s == S_BICGSTAB_R || s == S_BICGSTABL2_R);
+    const int kdim = (s == S_FGMRES2 || s == S_GMRES2) ? 2 : 3;
+    const double delta = (s == S_FGMRES2 || s == S_GMRES2) ? 0.0 : 1.0;
+    if(path == 2)
+    {
+      const String sec("verif");
+      switch(s)
+      {
+      case S_PCG: return Solver::new_pcg(sec, pm, A, f, pr);
+      case S_PCR: return Solver::new_pcr(sec, pm, A, f, pr);
+      case S_BICGSTAB_L: case S_BICGSTAB_R: return Solver::new_bicgstab(sec, pm, A, f, pr);
+      case S_BICGSTABL1_L: case S_BICGSTABL2_L: case S_BICGSTABL2_R: return Solver::new_bicgstabl(sec, pm, A, f, pr);
+      case S_FGMRES2: case S_FGMRES3D: return Solver::new_fgmres(sec, pm, A, f, pr);
+      case S_GMRES2: case S_GMRES3D: return Solver::new_gmres(sec, pm, A, f, pr);
+      case S_RICHARDSON: case S_RICHARDSON1: return Solver::new_richardson(sec, pm, A, f, pr);
+      case S_RGCR: return Solver::new_rgcr(sec, pm, A, f, pr);
+      case S_IDRS1: case S_IDRS2: { auto q = Solver::new_idrs(sec, pm, A, f, pr); q->reset_shadow_space(false); return q; }
+      case S_PCGNR: return Solver::new_pcgnr(sec, pm, A, f, pr, pr2);
+      case S_PMR: return Solver::new_pmr(sec, pm, A, f, pr);
+      case S_CHEBYSHEV: return Solver::new_chebyshev(sec, pm, A, f);
+      }
+      return nullptr;
+    }
+    if(path == 1)
+    {
+      switch(s)
+      {
+      case S_BICGSTAB_L: case S_BICGSTAB_R:
+        { auto q = Solver::new_bicgstab(A, f, pr, right ? BV::left : BV::right); q->set_precon_variant(right ? BV::right : BV::left); return q; }
+      case S_BICGSTABL1_L: case S_BICGSTABL2_L: case S_BICGSTABL2_R:
+        { auto q = Solver::new_bicgstabl(A, f, s == S_BICGSTABL1_L ? 1 : 2, pr, right ? LV::left : LV::right); q->set_precon_variant(right ? LV::right : LV::left); return q; }
+      case S_FGMRES2: case S_FGMRES3D: { auto q = Solver::new_fgmres(A, f, 7, 0.25, pr); q->set_krylov_dim(Index(kdim)); q->set_inner_res_scale(delta); return q; }
+      case S_GMRES2: case S_GMRES3D: { auto q = Solver::new_gmres(A, f, 7, 0.25, pr); q->set_krylov_dim(Index(kdim)); q->set_inner_res_scale(delta); return q; }
+      case S_RICHARDSON: case S_RICHARDSON1: { auto q = Solver::new_richardson(A, f, 0.125, pr); q->set_omega(s == S_RICHARDSON ? 0.5 : 1.0); return q; }
+      case S_IDRS1: case S_IDRS2: { auto q = Solver::new_idrs(A, f, 5, pr); q->set_krylov_dim(Index(s == S_IDRS1 ? 1 : 2)); q->reset_shadow_space(false); return q; }
+      case S_CHEBYSHEV: { auto q = std::make_shared<Solver::Chebyshev<MatT, FilT>>(A, f); q->set_fraction_min_ev(0.03); q->set_fraction_max_ev(1.1); return q; }
+      default: break; // no solver specific parameters: as path 0
+      }
+    }
     switch(s)
     {
     case S_PCG: return Solver::new_pcg(A, f, pr);
     case S_PCR: return Solver::new_pcr(A, f, pr);
-    case S_BICGSTAB_L: return Solver::new_bicgstab(A, f, pr, Solver::BiCGStabPreconVariant::left);
-    case S_BICGSTAB_R: return Solver::new_bicgstab(A, f, pr, Solver::BiCGStabPreconVariant::right);
-    case S_BICGSTABL1_L: return Solver::new_bicgstabl(A, f, 1, pr, Solver::BiCGStabLPreconVariant::left);
-    case S_BICGSTABL2_L: return Solver::new_bicgstabl(A, f, 2, pr, Solver::BiCGStabLPreconVariant::left);
-    case S_BICGSTABL2_R: return Solver::new_bicgstabl(A, f, 2, pr, Solver::BiCGStabLPreconVariant::right);
+    case S_BICGSTAB_L: return Solver::new_bicgstab(A, f, pr, BV::left);
+    case S_BICGSTAB_R: return Solver::new_bicgstab(A, f, pr, BV::right);
+    case S_BICGSTABL1_L: return Solver::new_bicgstabl(A, f, 1, pr, LV::left);
+    case S_BICGSTABL2_L: return Solver::new_bicgstabl(A, f, 2, pr, LV::left);
+    case S_BICGSTABL2_R: return Solver::new_bicgstabl(A, f, 2, pr, LV::right);
     case S_FGMRES2: return Solver::new_fgmres(A, f, 2, 0.0, pr);
     case S_FGMRES3D: return Solver::new_fgmres(A, f, 3, 1.0, pr);
     case S_GMRES2: return Solver::new_gmres(A, f, 2, 0.0, pr);
@@ -286,6 +330,27 @@ namespace c07
     case S_CHEBYSHEV: return Solver::new_chebyshev(A, f);
     }
     return nullptr;
+  }
+
+  /// the solver specific keys of the PropertyMap configuration
+  inline void solver_keys(int s, PropertyMap& pm)
+  {
+    switch(s)
+    {
+    case S_BICGSTAB_L: pm.add_entry("precon_variant", "left"); break;
+    case S_BICGSTAB_R: pm.add_entry("precon_variant", "right"); break;
+    case S_BICGSTABL1_L: pm.add_entry("precon_variant", "left"); pm.add_entry("polynomial_degree", "1"); break;
+    case S_BICGSTABL2_L: pm.add_entry("precon_variant", "left"); pm.add_entry("polynomial_degree", "2"); break;
+    case S_BICGSTABL2_R: pm.add_entry("precon_variant", "right"); pm.add_entry("polynomial_degree", "2"); break;
+    case S_FGMRES2: case S_GMRES2: pm.add_entry("krylov_dim", "2"); pm.add_entry("inner_res_scale", "0"); break;
+    case S_FGMRES3D: case S_GMRES3D: pm.add_entry("krylov_dim", "3"); pm.add_entry("inner_res_scale", "1"); break;
+    case S_RICHARDSON: pm.add_entry("omega", "0.5"); break;
+    case S_RICHARDSON1: pm.add_entry("omega", "1"); break;
+    case S_IDRS1: pm.add_entry("krylov_dim", "1"); break;
+    case S_IDRS2: pm.add_entry("krylov_dim", "2"); break;
+    case S_CHEBYSHEV: pm.add_entry("fraction_min_ev", "0.03"); pm.add_entry("fraction_max_ev", "1.1"); break;
+    default: break;
+    }
   }
 
   /// sequential containers (SparseMatrixCSR / DenseVector)
@@ -316,7 +381,7 @@ namespace c07
       default: return nullptr;
       }
     }
-    std::shared_ptr<ISolver> make(int s, int p) const { return make_common<Mat, Filter, VecT>(s, mat, filter, make_prec(p), make_prec(p)); }
+    std::shared_ptr<ISolver> make(int s, int p, int path = 0, PropertyMap* pm = nullptr) const { return make_common<Mat, Filter, VecT>(s, mat, filter, make_prec(p), make_prec(p), path, pm); }
   };
 
   /// Global:: containers on a single process (the pipelined solvers need dot_async / norm2_async)
@@ -362,9 +427,21 @@ namespace c07
       default: return nullptr;
       }
     }
-    std::shared_ptr<ISolver> make(int s, int p) const
+    std::shared_ptr<ISolver> make(int s, int p, int path = 0, PropertyMap* pm = nullptr) const
     {
       auto pr = make_prec(p);
+      if(path == 2)
+      {
+        const String sec("verif");
+        switch(s)
+        {
+        case S_PCG: return Solver::new_pcg(sec, pm, mat, filter, pr);
+        case S_PIPEPCG: return Solver::new_pipepcg(sec, pm, mat, filter, pr);
+        case S_GROPPPCG: return Solver::new_gropppcg(sec, pm, mat, filter, pr);
+        case S_RBICGSTAB: return Solver::new_rbicgstab(sec, pm, mat, filter, pr);
+        }
+        return nullptr;
+      }
       switch(s)
       {
       case S_PCG: return Solver::new_pcg(mat, filter, pr);
@@ -468,15 +545,37 @@ namespace c07
       }
     }
 
-    std::shared_ptr<ISolver> new_solver()
+    /// path 0: constructor arguments + limit setters; 1: everything by setters on an object constructed with other values;
+    /// 2: PropertyMap section constructor (limits and solver parameters as strings)
+    std::shared_ptr<ISolver> new_solver(int path = 0)
     {
-      auto sv = pol.make(s, p);
+      if(path == 2)
+      {
+        PropertyMap pm;
+        char b[64];
+        pm.add_entry("max_iter", std::to_string(lim.max_iter)); pm.add_entry("min_iter", std::to_string(lim.min_iter));
+        snprintf(b, sizeof b, "%.17g", lim.tol_rel); pm.add_entry("tol_rel", b);
+        pm.add_entry("plot_mode", "none"); pm.add_entry("min_stag_iter", "0");
+        solver_keys(s, pm);
+        return pol.make(s, p, 2, &pm);
+      }
+      auto sv = pol.make(s, p, path, nullptr);
+      if(path == 1)
+      {
+        // every documented setter once, with the documented default where the case does not prescribe a value
+        const double eps = std::numeric_limits<double>::epsilon();
+        sv->set_tol_abs(1.0 / (eps * eps)); sv->set_tol_abs_low(0.0); sv->set_div_rel(1.0 / eps); sv->set_div_abs(1.0 / (eps * eps));
+        sv->set_stag_rate(0.95); sv->set_min_stag_iter(Index(0)); sv->set_plot_mode(Solver::PlotMode::none); sv->set_plot_interval(Index(1));
+        sv->set_plot_name("verif"); sv->skip_defect_calc(true);
+        sv->set_max_iter(Index(77)); sv->set_min_iter(Index(5)); sv->set_tol_rel(0.25); // overwritten below: the last call counts
+      }
       sv->set_max_iter(lim.max_iter); sv->set_min_iter(lim.min_iter); sv->set_tol_rel(lim.tol_rel);
       return sv;
     }
 
     /// executes op; the vectors (rhs, start values) are taken from 'data' (default: this case), the solver and vector layout from this case
-    Result exec(ISolver& sv, const Op& op, const Case* data = nullptr)
+    /// how: 0 = apply()/correct() of the solver, 1 = Solver::solve(IterativeSolver&, ...), 2 = Solver::solve(SolverBase&, ...) (defect correction around apply)
+    Result exec(ISolver& sv, const Op& op, const Case* data = nullptr, int how = 0)
     {
       const std::vector<std::vector<LD>>& rhs = data ? data->rhs : this->rhs;
       const std::vector<std::vector<LD>>& xref = data ? data->xref : this->xref;
@@ -493,7 +592,9 @@ namespace c07
         else v = fixed[i] ? 0.0 : (op.x0 == 1 ? 1.0 : double(xref[op.rhs][i]));
         px[i] = v;
       }
-      r.st = (op.kind == 0) ? sv.apply(vx, vb) : sv.correct(vx, vb);
+      if(how == 1) r.st = Solver::solve(sv, vx, vb, pol.mat, pol.filter);
+      else if(how == 2) r.st = Solver::solve(static_cast<Solver::SolverBase<VecT>&>(sv), vx, vb, pol.mat, pol.filter);
+      else r.st = (op.kind == 0) ? sv.apply(vx, vb) : sv.correct(vx, vb);
       r.iters = sv.get_num_iter(); r.d0 = sv.get_def_initial(); r.d1 = sv.get_def_final();
       r.x.assign(Policy::raw(vx), Policy::raw(vx) + n);
       r.rhs_ok = (std::memcmp(Policy::raw(vb), b0.data(), 8 * size_t(n)) == 0);
@@ -673,6 +774,31 @@ namespace c07
         sv->done();
         judge(ops[k], fresh[k], "fresh object: ");
         states.insert(fresh[k].hash());
+        // the free functions Solver::solve: the IterativeSolver overload is correct(); the SolverBase overload corrects x by apply(b - A x)
+        if(ops[k].kind == 1)
+        {
+          { auto s4 = new_solver(); s4->init(); Result r4 = exec(*s4, ops[k], nullptr, 1); s4->done();
+            chk(c, r4.same(fresh[k]), std::string("solvers.solve(IterativeSolver&)!=correct ") + cname(s), [&]{ return where + " | " + opstr(ops[k]); }); }
+          { auto s5 = new_solver(); s5->init(); Result r5 = exec(*s5, ops[k], nullptr, 2); s5->done();
+            if(Solver::status_success(r5.st)) judge(ops[k], r5, "Solver::solve(SolverBase&): ");
+            else
+            {
+              bool unch = true; for(int i = 0; i < n; ++i) { const double x0i = fixed[i] ? 0.0 : (ops[k].x0 == 1 ? 1.0 : double(xref[ops[k].rhs][i])); if(r5.x[i] != x0i) unch = false; }
+              chk(c, unch && r5.rhs_ok, std::string("solvers.solve(SolverBase&)-changed-x-without-success ") + cname(s), [&]{ return where + " | " + opstr(ops[k]) + " status=" + stname(r5.st) + " x=" + vstr(r5.x); });
+            }
+            c.count("generic_solve_calls"); }
+        }
+        // the same solver configured by setters / from a PropertyMap section behaves identically
+        for(int path = 1; path <= 2; ++path)
+        {
+          auto s3 = new_solver(path); s3->init();
+          Result r3 = exec(*s3, ops[k]);
+          s3->done();
+          chk(c, r3.same(fresh[k]), std::string("solvers.configuration-path ") + (path == 1 ? "setters " : "PropertyMap ") + cname(s), [&]{ return where + " | " + opstr(ops[k]) + ": configured by "
+            + (path == 1 ? "setters" : "a PropertyMap section") + " status=" + stname(r3.st) + " iters=" + std::to_string(r3.iters) + " x=" + vstr(r3.x) + " but by constructor arguments status="
+            + stname(fresh[k].st) + " iters=" + std::to_string(fresh[k].iters) + " x=" + vstr(fresh[k].x); });
+          c.count("configuration_path_solves");
+        }
         c.count("traces_validated_against_impl");
         if(ops[k].kind == 0)
         {
@@ -769,7 +895,54 @@ namespace c07
       }
       pol.set_values(sys);
     }
+
+    /// setter calls BETWEEN two solves on one initialised object: init op_i; set_max_iter/set_min_iter/set_tol_rel (and, for BiCGStab /
+    /// BiCGStabL, set_precon_variant) to the configuration of 'other'; op_j  ==  the result of a fresh solver constructed like 'other'
+    void setter_histories(Case& other)
+    {
+      std::vector<size_t> first;
+      for(size_t i = 0; i < ops.size() && first.size() < 2; ++i) if(first.empty() || ops[i].kind != ops[first[0]].kind) first.push_back(i);
+      for(size_t i : first) for(size_t j = 0; j < other.ops.size(); ++j)
+      {
+        auto sv = new_solver();
+        sv->init();
+        Result r1 = exec(*sv, ops[i]);
+        chk(c, tr.recycles || r1.same(fresh[i]), std::string("solvers.history-dependence ") + cname(s), [&]{ return where + " | history: init " + opstr(ops[i]); });
+        sv->set_max_iter(other.lim.max_iter); sv->set_min_iter(other.lim.min_iter); sv->set_tol_rel(other.lim.tol_rel);
+        if(other.s != s) switch_variant(*sv, other.s, std::integral_constant<bool, Policy::has(S_BICGSTAB_L)>());
+        Result r2 = exec(*sv, other.ops[j], &other);
+        char lb[120]; snprintf(lb, sizeof lb, "set_max_iter(%u) set_min_iter(%u) set_tol_rel(%g)%s", unsigned(other.lim.max_iter), unsigned(other.lim.min_iter), other.lim.tol_rel, other.s != s ? " set_precon_variant(other)" : "");
+        const std::string h = "init " + opstr(ops[i]) + " " + lb + " " + other.opstr(other.ops[j]);
+        if(!tr.recycles)
+          chk(c, r2.same(other.fresh[j]), std::string("solvers.setters-between-solves ") + cname(s), [&]{ return where + " | history: " + h + " | result status=" + stname(r2.st) + " iters=" + std::to_string(r2.iters)
+            + " x=" + vstr(r2.x) + " but a fresh solver with that configuration gives status=" + stname(other.fresh[j].st) + " iters=" + std::to_string(other.fresh[j].iters) + " x=" + vstr(other.fresh[j].x); });
+        else
+        { other.key_tag = " after-setters"; other.judge(other.ops[j], r2, "history: " + h + " | "); other.key_tag.clear(); }
+        sv->done();
+        c.count("traces_validated_against_impl");
+        c.count("setter_histories");
+      }
+    }
+    void switch_variant(ISolver&, int, std::false_type) {}
+    void switch_variant(ISolver& sv, int s2, std::true_type)
+    {
+      typedef typename std::remove_const<decltype(pol.mat)>::type MatT; typedef typename std::remove_const<decltype(pol.filter)>::type FilT;
+      const bool right = (s2 == S_BICGSTAB_R || s2 == S_BICGSTABL2_R);
+      if(auto* q = dynamic_cast<Solver::BiCGStab<MatT, FilT>*>(&sv)) q->set_precon_variant(right ? Solver::BiCGStabPreconVariant::right : Solver::BiCGStabPreconVariant::left);
+      else if(auto* q2 = dynamic_cast<Solver::BiCGStabL<MatT, FilT>*>(&sv)) q2->set_precon_variant(right ? Solver::BiCGStabLPreconVariant::right : Solver::BiCGStabLPreconVariant::left);
+    }
   };
+
+  /// partner variant reachable by set_precon_variant on a live object
+  inline int partner_variant(int s)
+  {
+    switch(s)
+    {
+    case S_BICGSTAB_L: return S_BICGSTAB_R; case S_BICGSTAB_R: return S_BICGSTAB_L;
+    case S_BICGSTABL2_L: return S_BICGSTABL2_R; case S_BICGSTABL2_R: return S_BICGSTABL2_L;
+    default: return s;
+    }
+  }
 
   /// the updated system of the value-update histories: same pattern, diagonal scaled by 3/2 (keeps symmetry and definiteness)
   inline SysDef updated_system(const SysDef& a)
@@ -837,6 +1010,16 @@ namespace c07
             cu.where = where + " [updated matrix]";
             cu.prepare();
             cs.value_update_histories(cu);
+            // setters between two solves (other limits; BiCGStab/BiCGStabL: the other preconditioning variant); quick: min_iter = 0 cases only
+            if(c.thorough || imn == 0)
+            {
+            const Limits lim2{lim.max_iter == Index(100) ? Index(2) : Index(100), lim.min_iter == Index(0) ? Index(2) : Index(0), lim.tol_rel == 1e-8 ? 1e-2 : 1e-8};
+            const int s2 = (Policy::has(partner_variant(s)) && pairing_allowed(partner_variant(s), p, sys)) ? partner_variant(s) : s;
+            Case<Policy> co(c, sys, s2, p, lim2, fsets[fi], c.thorough);
+            co.where = where + " [reconfigured by setters]";
+            co.prepare();
+            cs.setter_histories(co);
+            }
           }
           c.heartbeat();
         }
